@@ -148,6 +148,8 @@ func runCase(c Case) (coq string, nontrivial bool, tags []string) {
 
 var literals = []string{"a", "b", "c", "ab", "bc", "a.b", ".git", ".hg", "_darcs", "a-c"}
 var classes = []string{"[ab]", "[a-c]", "[!a]", "[^b]", "[.-0]", "[a-]", "[-a]", "[a-c-e]", "[!a-c]", "[!.]", "[b-a]", "[^^]", "[!!]"}
+// the classes of the generators that admit '/'
+var slashClasses = []string{"[!a]", "[^b]", "[.-0]", "[!a-c]", "[!.]", "[^^]", "[!!]"}
 var atoms = []string{"a", "b", "c", ".", "-", "*", "?", "[ab]", "[!a]", "[a-c]", "_"}
 
 func genComp(r *rand.Rand) string {
@@ -183,11 +185,25 @@ func genComp(r *rand.Rand) string {
 }
 
 // inGrammar enforces the harness restrictions stated in Model/IgnoreMutagen.v:
-// no run of three or more '*', no two adjacent "**" components, and no final
+// no run of three or more '*', no two adjacent "**" components, no final
 // "**" component right after a component that ends in '*' (checked on the
-// cleaned text too, since cleaning can bring components together).
+// cleaned text too, since cleaning can bring components together), and no
+// '*' in a component that has a class admitting '/'.
 func inGrammar(body string) bool {
 	cleaned := pathpkg.Clean(body)
+	// (iv) a component with a class that admits '/' contains no '*': with a
+	// star in play doublestar's single-backtrack-point search makes the outcome
+	// depend on where the class happens to be tried (e.g. "*[!a]*" does not
+	// match ".hg/a-c" although "[!a]" could take the '/').
+	for _, comp := range strings.Split(body, "/") {
+		if strings.Contains(comp, "*") {
+			for _, c := range slashClasses {
+				if strings.Contains(comp, c) {
+					return false
+				}
+			}
+		}
+	}
 	return !strings.Contains(cleaned, "***") && !strings.Contains(cleaned, "**/**") &&
 		!strings.Contains(body, "***") && !strings.Contains(body, "**/**") &&
 		!strings.HasSuffix(strings.TrimSuffix(cleaned, "/"), "*/**")
